@@ -273,6 +273,18 @@ class Scenario:
             return self.env_answer(s, name, host)
         elif name == "req":
             d = env.acr(host=host, hbh=hbh, e2e=e2e) if napps_acct else env.ccr(host=host, hbh=hbh, e2e=e2e)
+        elif name.startswith("rq:"):
+            # rq:<header application id>:<realm key>[:missing][:T]  (an ACR whatever the application id)
+            parts = name.split(":")
+            realm = {"own": env.NODE_REALM, "r2": "realm2.example", "foreign": "nowhere.example"}[parts[2]]
+            flags = R | P | (T if "T" in parts[3:] else 0)
+            d = env.acr(host=host, hbh=hbh, e2e=e2e, app=int(parts[1]), dest_realm=realm, flags=flags,
+                        missing=(485,) if "missing" in parts[3:] else ())
+        elif name.startswith("rt:"):
+            # rt:<origin a|b>:<T 0|1>:<end-to-end id from a small pool>   (requests relayed for two origin hosts)
+            parts = name.split(":")
+            origin = {"a": "origin-a.example.org", "b": "origin-b.example.org"}[parts[1]]
+            d = env.acr(host=origin, hbh=hbh, e2e=0x7000 + int(parts[3]), flags=R | P | (T if parts[2] == "1" else 0))
         elif name == "req_auth":
             d = env.ccr(host=host, hbh=hbh, e2e=e2e)
         elif name == "req_acct":
